@@ -353,9 +353,12 @@ class Engine:
                 out.update(cs.fields)
         return out
 
-    def class_invariants(self, ctx: Ctx, obj: Obj, cls: Optional[ClassInfo] = None, partial: bool = False) -> List[Tuple[str, Any]]:
+    def class_invariants(self, ctx: Ctx, obj: Obj, cls: Optional[ClassInfo] = None, partial: bool = False,
+                         exempt=()) -> List[Tuple[str, Any]]:
         out = []
         for c in (cls or obj.cls).mro():
+            if (c.name + ".*") in exempt:
+                continue  # every clause of this class is exempt (Contract.inv_exempt): not even evaluated
             cs = self.reg.classes.get(c.qualname)
             if cs and cs.invariant:
                 if partial and cs.whole_object:
@@ -473,6 +476,10 @@ class Engine:
             if z3.is_int(v) or z3.is_real(v):
                 return v != 0
             if z3.is_string(v):
+                from . import strmodel as _sm
+
+                if _sm.ENABLED and _sm.lower_arg(v) is not None:
+                    return _sm.truth_of_lower(_sm.lower_arg(v))
                 return z3.Length(v) > 0
         if isinstance(v, OptV):
             return speclib_and(self.b_not(v.is_none), self.truth(ctx, v.val))
@@ -520,6 +527,8 @@ class Engine:
                 both_some = speclib_and(self.b_not(a.is_none), self.b_not(b.is_none), self.py_eq(ctx, a.val, b.val))
                 return speclib_or(both_none, both_some)
             return speclib_and(self.b_not(a.is_none), self.py_eq(ctx, a.val, b))
+        if isinstance(a, V.PathV) and isinstance(b, V.PathV):
+            return a.term == b.term  # pure paths compare by value
         if a is None or b is None:
             if a is None and b is None:
                 return True
@@ -528,6 +537,12 @@ class Engine:
                 return False
             raise EngineLimit("== None of %r" % (other,))
         if isinstance(a, z3.ExprRef) or isinstance(b, z3.ExprRef):
+            from . import strmodel as _sm
+
+            if _sm.ENABLED:
+                for lit, term in ((a, b), (b, a)):
+                    if isinstance(lit, str) and isinstance(term, z3.ExprRef) and _sm.lower_arg(term) is not None:
+                        return _sm.eq_literal(self, ctx, lit, term)
             ta, tb = self.coerce_pair(a, b)
             if ta is None:
                 return False
@@ -674,6 +689,10 @@ class Engine:
     def verify_function(self, qualname: str, contract: Optional[Contract] = None) -> FunctionResult:
         contract = contract or self.reg.contracts[qualname]
         finfo = self.repo.functions.get(contract.qualname)
+        if finfo is None and "@" in contract.qualname and getattr(contract.impl, "body_slice", None):
+            finfo = self.sliced_function(contract.qualname, contract.impl.body_slice)
+        if finfo is None:
+            finfo = self.nested_function(contract.qualname)
         res = FunctionResult(contract.qualname)
         if finfo is None:
             res.limits.append("function %s not found in the repository sources" % contract.qualname)
@@ -689,6 +708,54 @@ class Engine:
                 res.instances += 1
                 self._verify_instance(finfo, contract, cls, inst, res)
         return res
+
+    def sliced_function(self, qualname: str, spec: dict) -> Optional[FuncInfo]:
+        """A contiguous statement block of a repository function, cut out mechanically by AST position and verified as a
+        function of the variables it reads: the top-level statements after the assignment to the local name
+        spec['after_assign'] up to (excluding) the assignment to the attribute spec['until_assign_attr'].
+        Parameters: self (for methods) and spec['params'].  What the slice drops is everything outside the block."""
+        base = qualname.split("@")[0]
+        outer = self.repo.functions.get(base)
+        if outer is None:
+            return None
+        body = outer.node.body
+        start = end = None
+        for k, st in enumerate(body):
+            tgts = st.targets if isinstance(st, ast.Assign) else [st.target] if isinstance(st, ast.AnnAssign) else []
+            for t in tgts:
+                if isinstance(t, ast.Name) and t.id == spec["after_assign"] and start is None:
+                    start = k + 1
+                if isinstance(t, ast.Attribute) and t.attr == spec["until_assign_attr"] and start is not None and end is None:
+                    end = k
+        if start is None or end is None or end <= start:
+            return None
+        names = ([outer.params[0]] if outer.cls is not None else []) + list(spec.get("params", []))
+        node = ast.FunctionDef(name=outer.name, args=ast.arguments(posonlyargs=[], args=[ast.arg(arg=n, annotation=None)
+                                                                                      for n in names],
+                                                                     vararg=None, kwonlyargs=[], kw_defaults=[], kwarg=None,
+                                                                     defaults=[]),
+                               body=body[start:end], decorator_list=[], returns=None, lineno=body[start].lineno,
+                               col_offset=0)
+        fi = FuncInfo(qualname, node, outer.module, outer.cls)
+        fi.name = outer.name
+        fi.slice_of = (base, body[start].lineno, body[end - 1].end_lineno)
+        return fi
+
+    def nested_function(self, qualname: str) -> Optional[FuncInfo]:
+        """A `def` nested directly in a repository function, addressed as <outer qualname>.<name>.  It is verified as a
+        function of its parameters; names of the enclosing scope are visible only as far as a specification declares
+        them (`outer_env` of the contract), anything else is an unknown name (engine limit)."""
+        outer_q, _, name = qualname.rpartition(".")
+        outer = self.repo.functions.get(outer_q)
+        if outer is None:
+            return None
+        for node in ast.walk(outer.node):
+            if isinstance(node, ast.FunctionDef) and node.name == name and node is not outer.node:
+                fi = FuncInfo(qualname, node, outer.module, None)
+                fi.outer = outer
+                fi.self_recursive_name = name
+                return fi
+        return None
 
     def _verify_instance(self, finfo: FuncInfo, contract: Contract, cls, inst, res: FunctionResult):
         worklist: List[List[int]] = [[]]
@@ -867,6 +934,11 @@ class Engine:
             ctx.entry_measure = tuple(self.run_spec(ctx, contract.decreases, ns))
         env = Env(finfo.module, None, finfo)
         env.vars.update(args)
+        if getattr(finfo, "self_recursive_name", None):
+            # a nested function under contract: its own name is bound (recursive calls go through its contract)
+            env.vars[finfo.self_recursive_name] = V.Closure(finfo, None)
+            for k_, v_ in (getattr(contract.impl, "outer_env", None) or {}).items():
+                env.vars[k_] = v_(ctx) if callable(v_) else v_
         outcome = None
         try:
             if finfo.is_generator:
@@ -902,7 +974,11 @@ class Engine:
             c = self.run_spec(ctx, cond, ns)
             ctx.oblige("%s/noraise-implies#not-%s" % (short(ctx.func), xname), z3.Not(lift_bool(c)), kind="raises")
         if self_obj is not None and (is_init or self._is_mutable(cls)):
-            for label, inv in self.class_invariants(ctx, self_obj, contract_cls(self, contract, cls)):
+            # a constructor verified for a subclass receiver establishes the invariants of its own class (and bases) only
+            for label, inv in self.class_invariants(ctx, self_obj, finfo.cls if (is_init and finfo.cls is not None) else cls,
+                                                    exempt=contract.inv_exempt):
+                if label in contract.inv_exempt:
+                    continue
                 ctx.oblige("%s/inv#%s" % (short(ctx.func), label), lift_bool(inv), kind="inv")
 
     def _owns_state(self, cls) -> bool:
@@ -1282,6 +1358,12 @@ class Engine:
             v = self.static_to_value(r)
             if v is not None:
                 return v
+        imp = module.imports.get(name)
+        if imp is not None and imp[0] == "from" and imp[1] in self.repo.modules and name not in module.assigns:
+            src = self.repo.modules[imp[1]]
+            if imp[2] in src.assigns or (imp[2] in src.imports and src is not module):
+                # a module-level value (not a class / function) imported from a repository module (possibly re-exported)
+                return self.global_name(ctx, src, imp[2])
         if name in module.assigns:
             key = (module.name, name)
             if key in ctx.global_cache:
@@ -1336,6 +1418,10 @@ class Engine:
                 if o.fields is not None:
                     raise EngineLimit("spec reads unset field %s.%s" % (o.cls.name, name))
                 return self.abstract_field(ctx, o, name)
+            if o.ghost.get("$constructed-by-contract"):
+                # an object whose constructor was applied through its contract: a field the class specification does not
+                # declare is unknown here, not absent
+                raise EngineLimit("field %s.%s is not declared in the class specification" % (o.cls.name, name))
             raise PyRaise(ExcVal(V.ExtClass("AttributeError")))
         if isinstance(o, V.ClassVal):
             if name in o.cls.nested:
@@ -1508,6 +1594,9 @@ class Engine:
         c = self.truth(ctx, self.eval(ctx, e.test, env))
         if isinstance(c, bool):
             return self.eval(ctx, e.body if c else e.orelse, env)
+        r = self._optional_ifexp(ctx, e, env, c)
+        if r is not None:
+            return r
         if _pure_simple(e.body) and _pure_simple(e.orelse):
             x = self.eval(ctx, e.body, env)
             y = self.eval(ctx, e.orelse, env)
@@ -1517,6 +1606,34 @@ class Engine:
         if ctx.decide(c):
             return self.eval(ctx, e.body, env)
         return self.eval(ctx, e.orelse, env)
+
+    def _optional_ifexp(self, ctx, e, env, c):
+        """`None if x is None else int(x)` (and the mirrored form) for an Optional x: the Optional of the converted
+        value, without forking the path.  Only for the builtin conversions int / bool / str of a plain name."""
+        def is_none_const(n):
+            return isinstance(n, ast.Constant) and n.value is None
+
+        def conv_of_name(n):
+            return (isinstance(n, ast.Call) and isinstance(n.func, ast.Name) and n.func.id in ("int", "bool", "str")
+                    and len(n.args) == 1 and not n.keywords and isinstance(n.args[0], ast.Name))
+
+        if is_none_const(e.body) and conv_of_name(e.orelse):
+            other, none_cond = e.orelse, c
+        elif is_none_const(e.orelse) and conv_of_name(e.body):
+            other, none_cond = e.body, z3.Not(c)
+        else:
+            return None
+        found, x = env.lookup(other.args[0].id)
+        if not found or not isinstance(x, OptV) or not isinstance(self.global_name(ctx, env.module, other.func.id), V.Builtin):
+            return None
+        if not (isinstance(x.is_none, z3.ExprRef) and z3.simplify(none_cond == x.is_none).eq(z3.BoolVal(True))):
+            return None
+        v = x.val
+        if other.func.id == "int" and isinstance(v, z3.ExprRef) and z3.is_int(v):
+            return OptV(x.is_none, v)
+        if other.func.id == "str" and isinstance(v, z3.ExprRef) and z3.is_string(v):
+            return OptV(x.is_none, v)
+        return None
 
     def ex_Tuple(self, ctx, e, env):
         out = []
@@ -1739,7 +1856,14 @@ class Engine:
                 out.append(c.methods[finfo.name])
         return out
 
-    def find_contract(self, finfo: FuncInfo, selfv) -> Optional[Contract]:
+    def find_contract(self, finfo: FuncInfo, selfv, dynamic: bool = False) -> Optional[Contract]:
+        if dynamic and isinstance(selfv, Obj) and not selfv.exact:
+            # interface contract of a dynamically dispatched method whose base class also has a body of its own
+            # (registered as "<qualname>@dynamic"; the body contract under the plain name serves super() calls)
+            for base in ([finfo.cls] + finfo.cls.mro()[1:] if finfo.cls is not None else []):
+                c = self.reg.contracts.get("%s.%s@dynamic" % (base.qualname, finfo.name))
+                if c is not None:
+                    return c
         c = self.reg.contracts.get(finfo.qualname)
         if c is not None:
             return c
@@ -1756,7 +1880,12 @@ class Engine:
         if dynamic:
             finfo = self.resolve_dynamic(ctx, finfo, selfv)
         raw = getattr(closure, "raw", False)  # the undecorated body of a decorated def (pyvc.ext_expr)
-        contract = self.find_contract(finfo, selfv) if (closure is None or closure.env is None) and not raw else None
+        if raw:
+            contract = None
+        elif closure is None or closure.env is None:
+            contract = self.find_contract(finfo, selfv, dynamic)
+        else:
+            contract = self.reg.contracts.get(finfo.qualname)  # a contract stated on a nested function
         inline_ok = finfo.qualname in self.reg.inline
         verifying_self = finfo.qualname == ctx.func.split("[")[0].split("<")[0]
         if contract is not None and not inline_ok:
@@ -1907,6 +2036,8 @@ class Engine:
             self.havoc_init_fields(ctx, selfv, finfo.cls)
             if isinstance(selfv, Obj) and selfv.fields is not None:
                 V.bind_owner(selfv)
+            if isinstance(selfv, Obj) and selfv.cls is finfo.cls:
+                selfv.ghost["$constructed-by-contract"] = True
         else:
             if contract.value is not None:
                 result = self.run_spec(ctx, contract.value, ns)
@@ -1942,7 +2073,9 @@ class Engine:
             ctx.assume(lift_bool(c))
         if is_init:
             partial = isinstance(ns.self, Obj) and ns.self.cls is not finfo.cls
-            for label, inv in self.class_invariants(ctx, ns.self, finfo.cls, partial=partial):
+            for label, inv in self.class_invariants(ctx, ns.self, finfo.cls, partial=partial, exempt=contract.inv_exempt):
+                if label in contract.inv_exempt:
+                    continue
                 ctx.assume(lift_bool(inv))
         return result
 
